@@ -388,6 +388,7 @@ fn create_lib(paths: &[PathBuf], out: &Path, k: usize, seg: usize, mm: usize, th
         queue_capacity: 2usize << 30,
         fallback_frac: 0.0,
         pack_size: 50,
+        level: 17,
     };
     let _ = std::fs::remove_file(out);
     let r = util::catch(std::panic::AssertUnwindSafe(|| create_like_cli(&o)));
